@@ -110,7 +110,7 @@ def Engine.wfClauses (e : Engine) : List (String × Bool) :=
         | none => true),
     ("X5.queues-disjoint", e.userQ.all (fun id => !e.resubQ.contains id && !e.highQ.contains id) && e.resubQ.all (fun id => !e.highQ.contains id) &&
         e.userQ.eraseDups.length == e.userQ.length && e.resubQ.eraseDups.length == e.resubQ.length),
-    ("X7.high-once", e.highQ.all (fun id => e.highQ.count id == 1 || (match e.ops.lookup id with | some o => o.pubrel.isSome | none => true))),
+    ("X7.high-once", e.highQ.all (fun id => e.highQ.count id == 1)),
     ("OP.offline-queue-passes-policy", !e.offlineState ||
         e.userQ.all (fun id => match e.ops.lookup id with | some o => passesPolicy o.packet e.cfg.policy | none => true)),
     -- queue order
